@@ -240,7 +240,16 @@ fn transform_submodule(
             // Get the concrete type, used as a replacement
             let (concrete_replacement, replacement_deps) = nodes.get(concrete_replacement_name)
                 .expect("unreachable: parse order should guarantee, that all required modules are already parsed");
-            assert!(replacement_deps.is_empty());
+            if !replacement_deps.is_empty() {
+                return Err(ErrorKind::InvalidTypStatement(
+                    TypClause {
+                        ident: concrete_replacement_name.clone(),
+                        args: Vec::new(),
+                    },
+                    replacement_deps.clone(),
+                )
+                .into());
+            }
 
             // Ensure that the replacement conforms to all required parameters
             let interface = nodes.get(&generic_binding.bound).expect("unreachable: parse order should guarantee, that all required modules are already parsed");
